@@ -158,6 +158,9 @@ def build(spec):
         else:
             data = np.array(list(vals), dtype=object) if kind == "object" else np.array(list(vals), dtype=str)
         las.append_curve(m, data, unit=u)
+    for ix in spec.get("delete", []):      # deletions leave stale duplicate suffixes (a lone 'A:2')
+        if -len(las.curves) <= ix < len(las.curves):
+            las.delete_curve(ix=ix)
     if "other" in spec:
         las.sections["Other"] = spec["other"]
     return las
@@ -219,7 +222,9 @@ def gen_spec(rng, excel_safe=False):
             vals = [str(rng.randint(-5, 500)) for _ in range(nrow)]
         else:
             vals = [rng.choice(texts) for _ in range(nrow)]
-        spec["curves"].append([rng.choice(NAMES) if j else rng.choice(["DEPT", "DEPTH", "TIME", ""]), rng.choice(UNITS), kind, vals])
+        spec["curves"].append([rng.choice(NAMES + ["RES:2", "ZZ:1"]) if j else rng.choice(["DEPT", "DEPTH", "TIME", ""]), rng.choice(UNITS), kind, vals])
+    if ncur >= 3 and rng.random() < 0.3:
+        spec["delete"] = [rng.randrange(1, ncur)] + ([1] if rng.random() < 0.3 else [])
     if rng.random() < 0.3:
         spec["other"] = rng.choice(["", "free text", "two\nlines", 'q"uote'])
     return spec
